@@ -84,6 +84,7 @@ type posSpec struct {
 	delay    time.Duration // latency of the back end's answer for a fresh back-end blob
 	fault    int           // fault kinds: index into the back end's fault table
 	faultLen bool          // fault kinds: an HTTP error answer states a Content-Length
+	shared   int           // concurrency slice: 1 + index into the group's shared set (0 = not from it)
 }
 
 type caseSpec struct {
